@@ -1,7 +1,8 @@
 From Verif Require Import Common C01_Model C01_Spec C01_Monitor.
 Open Scope N_scope.
 
-Inductive case := CInf (i : input) (o : observation) | CMon (i : min) (o : mobs).
+Inductive case := CInf (i : input) (o : observation) | CMon (i : min) (o : mobs)
+  | CStress (i : input) (o : observation).   (* free-running goroutines: judged by P_free only *)
 
 (* ghost of the run: changes picked up when the last Synchronization read before the first
    unlock was taken (computed by the model run itself) *)
@@ -28,6 +29,7 @@ Definition model_obs (c : case) : mo :=
   match c with
   | CInf i _ => MoInf (obs_of (run i))
   | CMon i _ => MoMon (mobserve i)
+  | CStress i _ => MoInf (obs_of (run i))
   end.
 
 Definition view_eqb (a b : N * cache_t) : bool := N.eqb (fst a) (fst b) && cache_eqb (snd a) (snd b).
@@ -51,12 +53,14 @@ Definition agrees (c : case) : bool :=
       && N.eqb (mo_snap_pre m) (mo_snap_pre o) && N.eqb (mo_snap_late m) (mo_snap_late o)
       && N.eqb (mo_ev_pre m) (mo_ev_pre o) && N.eqb (mo_ev_late m) (mo_ev_late o)
       && negb (mo_bad o)
+  | CStress _ o => negb (ob_bad o)
   end.
 
 Definition spec_ok (c : case) : bool :=
   match c with
   | CInf i o => P i (k_of i) o
   | CMon i o => MP i o
+  | CStress i o => P_free i o
   end.
 
 Definition mismatches (cs : list case) : list N := indices_where (fun c => negb (agrees c)) cs.
